@@ -181,6 +181,11 @@ def halfmap_selection_obligations(rep, f, a, clause):
     for c in tuples:
         hm = Matcher(f).expr(c.args[1])
         if not (isinstance(hm, ast.Tuple) and len(hm.elts) == 2):
+            if any(isinstance(x, ast.Call) and isinstance(x.func, ast.Attribute) and x.func.attr in ("reshape", "ravel", "flatten", "view") for x in ast.walk(hm)):
+                rep.instance("S11.fsc", f.loc(c))
+                rep.ob("S11", a, "the returned half maps are members 0 and 1 of each split (index on axis 1 of the (n_set, 2, ...) array)", False,
+                       f"`{norm_src(hm)[:70]}`: a reshape of the split array keeps the memory order, it does not bring member k of every split together", node=c,
+                       fn=f, clause=clause)
             continue
         rep.instance("S11.fsc", f.loc(c))
         verdict, dets = True, []
@@ -297,10 +302,7 @@ def check(model, rep, tier):
         except Exception:
             pass
     _C07.formula_clause(model, ClauseView(rep, "formula"), shared)
-    from .generic import shell_mean_obligations
-    if "acryo/backend/_fsc.py::fsc_landscape" in shared:
-        shell_mean_obligations(model, rep, shared["acryo/backend/_fsc.py::fsc_landscape"], "formula")
-        rep.floor("H.shellmean", 1, "(fsc_landscape stores one mean per trial shift)")
+    rep.floor("H.shellmean", 1, "(fsc_landscape stores one mean per trial shift)")
     from .generic import view_update_obligations, functions_in
     view_update_obligations(model, rep, functions_in(model, ["acryo/loader/_base.py", "acryo/loader/_group.py", "acryo/_utils.py"]), "3 loader")
     from .generic import axis_convention_obligations
